@@ -261,6 +261,20 @@ access(all) contract Multi {
     access(all) attachment M4 for R { access(all) let k: Int; init() { self.k = 4 } }
     access(all) attachment M5 for R { access(all) let k: Int; init() { self.k = 5 } }
     access(all) attachment MB for R { access(all) let k: Int; init() { self.k = 99 } }
+    // the initializer reads the base, directly and through functions of the attachment
+    access(all) attachment MI for R {
+        access(all) let k: Int
+        access(all) let direct: Int
+        init() { self.direct = base.n; self.k = self.peek() + self.viaOther() }
+        access(all) fun peek(): Int { return base.n }
+        access(all) fun viaOther(): Int { return self.peek() * 2 }
+    }
+    access(all) struct SB { access(all) let v: Int; init(_ v: Int) { self.v = v } }
+    access(all) attachment SI for SB {
+        access(all) let seen: Int
+        init() { self.seen = self.look() }
+        access(all) fun look(): Int { return base.v + 1 }
+    }
     access(all) fun mk(_ n: Int): @R { return <- create R(n) }
     access(all) fun decorate(_ r: @R): @R {
         let a <- attach M0() to <- r
@@ -862,6 +876,16 @@ var scenarios = []scenario{
         let o: Int? = %d
         Far.emitOpt(o, nil)
         log("emitted")`, x, x+1)), Expect: []string{`"emitted"`}}}
+	}},
+	{"attachment-init-reads-base", func(r *Rng) []scnStep {
+		n := r.Intn(500)
+		return []scnStep{{Kind: "tx", Src: scnTx(impW+"import Multi from 0x9\n", fmt.Sprintf(`        let r <- attach Multi.MI() to <- Multi.mk(%d)
+        log(r[Multi.MI]!.direct)
+        log(r[Multi.MI]!.k)
+        log(r[Multi.MI]!.peek())
+        let sb = attach Multi.SI() to Multi.SB(%d)
+        log(sb[Multi.SI]!.seen)
+        destroy r`, n, n)), Expect: []string{fmt.Sprint(n), fmt.Sprint(3 * n), fmt.Sprint(n), fmt.Sprint(n + 1)}}}
 	}},
 	{"resource-juggling", func(r *Rng) []scnStep {
 		a, b := r.Intn(100), 100+r.Intn(100)
